@@ -9,7 +9,8 @@ CHECKS = {
         technique="TLA+ two-layer spec (editor splice vs transcribed documentcontents.go) model-checked by TLC; every TLC transition and simulated behaviour replayed on the real proxy.Document",
         text="TLC enumerates every document up to MaxLen over {letter,newline} x every start<=end range (coordinates up to one past the maximum, so clamping is exercised) x 7 replacement texts, checks that the transcribed implementation layer equals the reference splice, and every one of those transitions is replayed on the real Document (exhaustive for the bound); random walks over the emitted graph and TLC-simulated 40-edit behaviours run on one live Document and through DocumentContents.Apply batches.",
         note="Trusted: TLC, the reference splice semantics in LspDoc.tla (pinned in DESIGN.md appendix), the harness concretisation (distinct letters per position). ASCII only (UTF-16 = bytes) as in the property's quantifier.",
-        design="DESIGN.md §4 C17"),
+        design="DESIGN.md §4 C17",
+        modules=["LspDoc", "MCLspDoc", "MCLspDocSim"], pkgs=["c17"]),
 }
 
 NOT_YET = "check not built yet in this round (planned in DESIGN.md §7); not claimed until its spec and conformance harness exist"
@@ -58,6 +59,11 @@ def main():
             })
         else:
             m["not_applicable"].append({"property_id": i, "reason": NA.get(i, NOT_YET)})
+    claimed = {"modules": sorted({x for c in CHECKS.values() for x in c.get("modules", [])}),
+               "pkgs": sorted({x for c in CHECKS.values() for x in c.get("pkgs", [])} | {"vhlib"})}
+    with open(os.path.join(VERIF, "lib", "claimed.json"), "w") as fh:
+        json.dump(claimed, fh, indent=1)
+        fh.write("\n")
     with open(os.path.join(VERIF, "MANIFEST.json"), "w") as fh:
         json.dump(m, fh, indent=1)
         fh.write("\n")
